@@ -634,6 +634,347 @@ def r15_serial_floor(idx, r):
     r9_identity_floor(idx, Only(r, ["load:serial-floor"]))
 
 
+def _tri_not(v):
+    return None if v is None else (not v)
+
+
+def r16_every_saved_field_put_back(idx, r):
+    """Family: every class whose backUp pushes a tuple `(self.a, self.b, ..., <previous backup>)` onto a per-object stack.  Each field saved
+    there is state the scope returns to: restoreBackup must assign it from the popped entry (same position) on EVERY normal path.  The only
+    conditions under which a field may be left as it is: (1) a test on the keep-set (a kept definition keeps its `assigned` flags), and
+    (2) a test that THIS field is still the very object that was saved (`popped_i is self.field_i`) - then there is nothing to put back.
+    That some OTHER saved field is unchanged says nothing about this one."""
+    pairs = [c for c in idx.all_classes() if "backUp" in c.methods and "restoreBackup" in c.methods and ".tests" not in c.module.name]
+    fam = 0
+    for c in sorted(pairs, key=lambda c: c.fq):
+        tp = _tuple_push(c)
+        if tp is None:
+            continue
+        fld, s, b, rb = tp
+        elts = list(s.value.elts)
+        fields = []  # (position, text of the attribute that must receive the popped element)
+        for i, e in enumerate(elts):
+            if isinstance(e, ast.Attribute) and norm(e).startswith("self."):
+                fields.append((i, norm(e)))
+            elif s.attr in norm(e):
+                fields.append((i, fld))  # the previous entry of the stack (whatever way it is read)
+        if not fields:
+            continue
+        fam += 1
+        # names bound to a position of the popped entry / to the whole entry
+        counts = {}
+        for st in iter_stores(rb.node):
+            if isinstance(st.node, ast.Name):
+                counts[st.attr] = counts.get(st.attr, 0) + 1
+        pos_alias, whole = {}, set()
+        for x in walk_local(rb.node):
+            if isinstance(x, ast.Assign) and len(x.targets) == 1 and norm(x.value) == fld:
+                t = x.targets[0]
+                if isinstance(t, (ast.Tuple, ast.List)) and len(t.elts) == len(elts):
+                    for j, te in enumerate(t.elts):
+                        if isinstance(te, ast.Name) and counts.get(te.id) == 1:
+                            pos_alias[te.id] = j
+                elif isinstance(t, ast.Name) and counts.get(t.id) == 1:
+                    whole.add(t.id)
+
+        def is_entry(v):
+            return norm(v) == fld or (isinstance(v, ast.Name) and v.id in whole)
+
+        def pos_of(v):
+            if isinstance(v, ast.Name) and v.id in pos_alias:
+                return pos_alias[v.id]
+            if isinstance(v, ast.Subscript) and is_entry(v.value):
+                try:
+                    k = ast.literal_eval(v.slice)
+                except (ValueError, TypeError, SyntaxError):
+                    return None
+                if isinstance(k, int) and not isinstance(k, bool) and -len(elts) <= k < len(elts):
+                    return k % len(elts)
+            return None
+
+        def ev(n):
+            if not isinstance(n, ast.Assign):
+                return []
+            out = []
+            for t in n.targets:
+                if isinstance(t, (ast.Tuple, ast.List)):
+                    if isinstance(n.value, (ast.Tuple, ast.List)) and len(n.value.elts) == len(t.elts):
+                        prs = [(te, pos_of(ve)) for te, ve in zip(t.elts, n.value.elts)]
+                    elif is_entry(n.value) and len(t.elts) == len(elts):
+                        prs = [(te, j) for j, te in enumerate(t.elts)]
+                    else:
+                        prs = []
+                else:
+                    prs = [(t, pos_of(n.value))]
+                for te, j in prs:
+                    if j is not None and (j, norm(te)) in fields:
+                        out.append(f"put:{j}")
+            return out
+
+        env = single_assign_env(rb.node)
+        keep = [p for p in rb.params()[1:]]
+
+        def assume_for(i, txt, pol):
+            def tri(t):
+                if isinstance(t, ast.UnaryOp) and isinstance(t.op, ast.Not):
+                    return _tri_not(tri(t.operand))
+                if isinstance(t, ast.BoolOp):
+                    vs = [tri(v) for v in t.values]
+                    if isinstance(t.op, ast.And):
+                        return False if any(v is False for v in vs) else (True if all(v is True for v in vs) else None)
+                    return True if any(v is True for v in vs) else (False if all(v is False for v in vs) else None)
+                if isinstance(t, ast.Compare) and len(t.ops) == 1 and isinstance(t.ops[0], (ast.Is, ast.IsNot)):
+                    a, b_ = t.left, t.comparators[0]
+                    for u, w in ((a, b_), (b_, a)):
+                        if norm(u) == txt and pos_of(w) == i:
+                            return isinstance(t.ops[0], ast.IsNot)  # the path of interest: the field is NOT the saved object any more
+                return None
+
+            def assume(t):
+                t = propagate(t, env)
+                if keep and any(isinstance(x, ast.Name) and x.id in keep for x in ast.walk(t)):
+                    return pol
+                return tri(t)
+            return assume
+
+        for i, txt in fields:
+            miss = None
+            for pol in ((True, False) if keep else (None,)):
+                fl = Flow(rb.node, ev, assume=assume_for(i, txt, pol)).run()
+                if not fl.normal_exits():
+                    raise AnalysisError(f"{c.name}.restoreBackup: no normal exit found")
+                m_ = fl.must_at_normal_exits(f"put:{i}")
+                if not m_:
+                    miss = None
+                    break
+                miss = m_
+            what = "the previous entry of the backup stack" if txt == fld else txt
+            consequence = ("the stack is not popped, so the enclosing scope later restores this scope's entry" if txt == fld else
+                           f"whatever was assigned to {txt} inside a retainState scope survives the scope on that path (for a grid: bounds re-meshed inside the scope while pitch and offset stay the same objects)")
+            r.require(miss is None, f"{c.name}.restoreBackup:puts-back:{txt}", rb, node=(miss[0].node if miss and miss[0].node is not None else rb.node),
+                      msg=f"{c.name}.backUp saves {what} at position {i} of {fld}, but a path through restoreBackup leaves without assigning it back from the popped entry, and that path "
+                          f"is selected neither by the keep-set nor by `{txt} is <the saved object>`: {consequence}")
+    if fam < 4:
+        raise AnalysisError(f"only {fam} tuple-push backUp/restoreBackup pairs found (grid, parameter definition, composite, material, component expected)")
+
+
+_CONVERTERS = ("set", "frozenset", "list", "tuple", "sorted")
+_EMPTY = ("[]", "()", "set()", "frozenset()", "None", "{}", "list()", "tuple()")
+
+
+def _keeps_members(e, is_src):
+    """Does expression `e` evaluate to a collection holding EVERY member of the source collection (the members themselves, not projections)?
+    -> (True, '') | (False, why it loses members) | (None, '') when the form is not recognised."""
+    if is_src(e):
+        return True, ""
+    if isinstance(e, ast.BoolOp) and isinstance(e.op, ast.Or) and all(norm(v) in _EMPTY for v in e.values[1:]):
+        return _keeps_members(e.values[0], is_src)
+    if isinstance(e, ast.IfExp):
+        t = e.test
+        while isinstance(t, ast.UnaryOp) and isinstance(t.op, ast.Not):
+            t = t.operand
+        about_src = is_src(t) or (isinstance(t, ast.Compare) and len(t.ops) == 1 and isinstance(t.ops[0], (ast.Is, ast.IsNot)) and is_src(t.left) and norm(t.comparators[0]) == "None")
+        if not about_src:
+            return None, ""
+        res = [(_keeps_members(x, is_src) if norm(x) not in _EMPTY else (True, "")) for x in (e.body, e.orelse)]
+        for k, why in res:
+            if k is not True:
+                return k, why
+        return True, ""
+    if isinstance(e, ast.Call):
+        d = dotted(e.func)
+        if d in _CONVERTERS and len(e.args) == 1 and not isinstance(e.args[0], ast.Starred):
+            return _keeps_members(e.args[0], is_src)
+        if d in ("copy.copy", "copy.deepcopy") and e.args:
+            return _keeps_members(e.args[0], is_src)
+        if isinstance(e.func, ast.Attribute):
+            recv, meth = e.func.value, e.func.attr
+            if meth == "copy" and not e.args:
+                return _keeps_members(recv, is_src)
+            if meth in ("intersection", "difference", "symmetric_difference"):
+                k, why = _keeps_members(recv, is_src)
+                if k is True:
+                    return False, f"`.{meth}(...)` removes members"
+                return k, why
+            if meth in ("values", "keys") and not e.args and isinstance(recv, ast.DictComp) and len(recv.generators) == 1:
+                g = recv.generators[0]
+                k, why = _keeps_members(g.iter, is_src)
+                if k is not True:
+                    return k, why
+                if not isinstance(g.target, ast.Name):
+                    return None, ""
+                v = g.target.id
+                if g.ifs:
+                    return False, f"the filter `{norm(g.ifs[0])}` drops members"
+                key, val = norm(recv.key), norm(recv.value)
+                injective = key in (v, f"id({v})")
+                if meth == "keys":
+                    return (True, "") if key == v else (False, f"members are replaced by `{key}`")
+                if val != v:
+                    return False, f"members are replaced by `{val}`"
+                if injective:
+                    return True, ""
+                return False, (f"the members are first keyed by `{key}`, so of several definitions that agree in it only ONE survives - and definitions of different levels do share "
+                               "names (power on Block and Core, THmassFlowRate on Block and Assembly)")
+        return None, ""
+    if isinstance(e, (ast.SetComp, ast.ListComp, ast.GeneratorExp)) and len(e.generators) == 1:
+        g = e.generators[0]
+        k, why = _keeps_members(g.iter, is_src)
+        if k is not True:
+            return k, why
+        if not isinstance(g.target, ast.Name):
+            return None, ""
+        if g.ifs:
+            return False, f"the filter `{norm(g.ifs[0])}` drops members"
+        if norm(e.elt) != g.target.id:
+            return False, f"members are replaced by `{norm(e.elt)}`"
+        return True, ""
+    if isinstance(e, ast.Subscript) and isinstance(e.slice, ast.Slice):
+        k, why = _keeps_members(e.value, is_src)
+        return (False, "a slice keeps only part of the members") if k is True else (k, why)
+    if isinstance(e, ast.BinOp) and isinstance(e.op, (ast.BitAnd, ast.Sub, ast.BitXor)):
+        k, why = _keeps_members(e.left, is_src)
+        return (False, f"`{norm(e)}` removes members") if k is True else (k, why)
+    return None, ""
+
+
+def r17_keepset_reaches_consumers_whole(idx, r):
+    """Family: every hop of the keep-set between the caller of retainState and the two consumers (ParameterCollection.restoreBackup intersects
+    it with its own definitions, Parameter.restoreBackup tests `self in` it).  The hops are enumerated from the index: every function that has
+    the keep-set parameter (named as in the consumer's signature), every call in it that hands the keep-set on, every attribute it is parked
+    in, and every call that hands that attribute on.  At each hop the expression handed on holds EVERY member that came in: it is the
+    collection itself, or a plain container conversion / member-for-member comprehension of it.  Filtering, slicing, set difference and
+    de-duplication by a projection (name) lose members: a definition named to be kept that is lost on the way is rolled back."""
+    cons = idx.method(PC, "restoreBackup")
+    if cons is None or len(cons.params()) < 2:
+        raise AnchorMissing("ParameterCollection.restoreBackup(self, <keep-set>)")
+    ks = cons.params()[1]
+    fam = [f for m in idx.modules.values() if m.name.startswith("armi.") and ".tests" not in m.name for f in m.all_funcs()
+           if ks in [a.arg for a in f.node.args.posonlyargs + f.node.args.args + f.node.args.kwonlyargs]]
+    if len(fam) < 6:
+        raise AnalysisError(f"only {len(fam)} functions take the keep-set `{ks}` (retainState, StateRetainer.__init__, the restoreBackup family expected)")
+    LOSING = {"remove", "discard", "pop", "clear", "difference_update", "intersection_update", "symmetric_difference_update", "__delitem__", "popitem"}
+
+    def hops(f, is_src, src_txt):
+        """the places of f where the keep-set is handed on: (kind, node, expression)"""
+        env = single_assign_env(f.node)
+        out = []
+        mentions = lambda x: any(is_src(y) for y in ast.walk(x))
+        for c in iter_calls(f.node):
+            d = dotted(c.func)
+            if d in _CONVERTERS or d in ("copy.copy", "copy.deepcopy", "len", "bool", "isinstance", "id", "iter"):
+                continue
+            if isinstance(c.func, ast.Attribute) and mentions(propagate(c.func.value, env)):
+                continue  # a method of the keep-set itself (the consumer's .intersection), or of something made from it
+            for a in list(c.args) + [k.value for k in c.keywords]:
+                if isinstance(a, ast.Lambda):
+                    continue  # a deferred body: the calls inside it are hops of their own (iter_calls descends into it)
+                pa = propagate(a, env)
+                if mentions(pa):
+                    out.append(("call", c, pa))
+        for s_ in iter_stores(f.node, include_nested=False):
+            if s_.kind == "assign" and isinstance(s_.node, ast.Attribute) and s_.value is not None and isinstance(s_.stmt, ast.Assign) and len(s_.stmt.targets) == 1 and s_.stmt.targets[0] is s_.node:
+                pv = propagate(s_.value, env)
+                if mentions(pv):
+                    out.append(("store", s_, pv))
+            elif s_.kind == "mutcall" and s_.method in LOSING and is_src(propagate(s_.node.func.value, env)):
+                out.append(("mutation", s_, s_.node))
+        return out
+
+    def judge(f, kind, node, expr, is_src, src_txt, label):
+        where_ = node.stmt if kind != "call" else node
+        if kind == "mutation":
+            r.violate(f"{f.qualname}:{label}:members-removed-in-place", f, f"`{norm(node.node)}` removes members from the keep-set {src_txt} on its way to restoreBackup: "
+                      "a definition named to be kept that is removed here is rolled back when the scope ends instead of keeping its new value", node=where_)
+            return None
+        k, why = _keeps_members(expr, is_src)
+        tgt = (f"stored in {node.chain}" if kind == "store" else f"handed to {norm(node.func)}(...)")
+        key = f"{f.qualname}:{label}:{'parks' if kind == 'store' else 'hands-on'}-every-member:{node.chain if kind == 'store' else norm(node.func)}"
+        if k is None:
+            r.undecided(key, f, f"`{norm(expr)[:100]}` ({tgt}) is not a recognised member-preserving form of {src_txt}", node=where_)
+            return None
+        r.require(k, key, f, node=where_, msg=f"the keep-set {src_txt} is {tgt} as `{norm(expr)[:110]}`: {why}; a definition named to be kept that is lost here "
+                  "is rolled back when the retainState scope ends instead of keeping its new value")
+        return k
+
+    n = 0
+    parked = []  # (class, attribute) the keep-set is parked in
+    for f in sorted(fam, key=lambda f: f.fq):
+        is_src = lambda x: isinstance(x, ast.Name) and x.id == ks
+        for kind, node, expr in hops(f, is_src, f"`{ks}`"):
+            n += 1
+            judge(f, kind, node, expr, is_src, f"`{ks}`", "param")
+            if kind == "store" and f.cls is not None and node.chain and node.chain.startswith("self."):
+                parked.append((f, node.chain))
+    if not parked:
+        raise AnchorMissing("the attribute in which StateRetainer keeps the keep-set between __enter__ and __exit__")
+    for f0, chain in parked:
+        attr = chain.split(".", 1)[1]
+        # who may write the parking attribute: only the function that received the keep-set
+        for g, s_ in all_stores(idx, attr):
+            if ".tests" in g.module.name or not g.module.name.startswith("armi.") or s_.chain is None or "." not in s_.chain:
+                continue
+            if g is f0 and s_.kind == "assign":
+                continue
+            if g.cls is f0.cls or s_.kind in ("mutcall", "subscript-del", "del"):
+                r.violate(f"{g.qualname}:rewrites:{attr}", g, f"`{norm(s_.stmt)[:80]}` changes {chain} after {f0.qualname} stored the keep-set there: restoreBackup no longer sees the definitions named to be kept", node=s_.stmt)
+        r.ok(f"{f0.cls.name}.{attr}:single-writer", f0)
+        n += 1
+        is_attr = lambda x, chain=chain: isinstance(x, ast.Attribute) and norm(x) == chain
+        used = 0
+        for g in f0.cls.methods.values():
+            if g is f0:
+                continue
+            for kind, node, expr in hops(g, is_attr, f"`{chain}`"):
+                n += 1
+                used += 1
+                judge(g, kind, node, expr, is_attr, f"`{chain}`", "attr")
+        if not used:
+            r.violate(f"{f0.cls.name}.{attr}:handed-on", f0, f"{chain} is stored but no method of {f0.cls.name} hands it on: the keep-set never reaches restoreBackup and every parameter is rolled back")
+    if n < 6:
+        raise AnalysisError(f"only {n} hops of the keep-set found")
+
+
+
+def r18_optional_part_tested_for_none(idx, r):
+    """F105.  A composite whose state has an optional part (the spatial grid) saves and restores that part only when it is there.  "There"
+    is `is not None`: the part may define __len__ (a grid without built locations, an empty collection) and is then FALSE while present,
+    so a truth test skips its backUp at scope entry - and the restoreBackup at scope exit, if reached after the part became true, pops an
+    empty stack, or is skipped as well and leaves the in-scope pitch/bounds in place.  Family: every backUp / restoreBackup method of the
+    tree; every call `<self.part>.backUp()` / `<self.part>.restoreBackup(...)` in it that stands under path conditions mentioning that
+    part: each such condition is an identity comparison with None."""
+    n = 0
+    for c in sorted(idx.all_classes(), key=lambda c: c.fq):
+        if ".tests." in c.fq:
+            continue
+        for mname in ("backUp", "restoreBackup"):
+            f = c.methods.get(mname)
+            if f is None:
+                continue
+            env = single_assign_env(f.node)
+            for call in iter_calls(f.node):
+                if not (isinstance(call.func, ast.Attribute) and call.func.attr == mname):
+                    continue
+                part = norm(propagate(call.func.value, env))
+                if not part.startswith("self.") or part in ("self.p",):
+                    continue
+                for test, pol in path_conditions(f.node, call):
+                    t = propagate(test, env)
+                    names = {norm(x) for x in ast.walk(t) if isinstance(x, (ast.Attribute, ast.Name))}
+                    if part not in names:
+                        continue
+                    n += 1
+                    inner = t.operand if isinstance(t, ast.UnaryOp) and isinstance(t.op, ast.Not) else t
+                    by_identity = (isinstance(inner, ast.Compare) and len(inner.ops) == 1 and isinstance(inner.ops[0], (ast.Is, ast.IsNot))
+                                   and {norm(inner.left), norm(inner.comparators[0])} == {part, "None"})
+                    r.require(by_identity, f"{c.name}.{mname}:{part}:present-means-not-None", f, node=test,
+                              msg=f"{c.name}.{mname} saves/restores `{part}` only under `{norm(test)}`, a truth test of the part itself: an object that defines __len__ (a grid in which no "
+                                  "location has been built yet) is false while it is there, so it is not backed up at scope entry and the scope exit fails on the empty backup or leaves the "
+                                  "pitch/bounds changed inside the scope in place - compare with None")
+    if n < 2:
+        raise AnchorMissing(f"only {n} guarded backUp/restoreBackup delegations to an optional part found (Composite.backUp / restoreBackup and the spatial grid expected)")
+
+
 def run(idx, chk):
     chk.explanation = (
         "C16: StateRetainer's enter/exit symmetry and traversal; every backUp/restoreBackup pair in the tree pushing and popping a stack with "
@@ -668,3 +1009,11 @@ def run(idx, chk):
                  necessary="the keep-set reaches restoreBackup")
     chk.run_rule("R16.15", "Database.load raises the serial counter to the maximum stored serial (R06.9)", lambda r: r15_serial_floor(idx, r), floor=1,
                  necessary="no two live objects share a serial number")
+    chk.run_rule("R16.16", "every field a tuple backUp saves is assigned back from the popped entry on every path of restoreBackup (skipped only for the keep-set or when that very field is still the saved object)",
+                 lambda r: r16_every_saved_field_put_back(idx, r), floor=11,
+                 necessary="arbitrary assignments (grid pitch or BOUNDS included) are undone when the scope ends: a saved field that one path does not put back keeps its in-scope value")
+    chk.run_rule("R16.17", "at every hop from retainState to restoreBackup the keep-set is handed on with every member (container conversions only: no filter, slice, difference or de-duplication by name)",
+                 lambda r: r17_keepset_reaches_consumers_whole(idx, r), floor=7,
+                 necessary="the parameters named to be kept retain their new values - every one of them, also two same-named definitions of different levels")
+    chk.run_rule("R16.18", "an optional part of the state (the spatial grid) is saved and restored whenever it is not None - never skipped because it is empty", lambda r: r18_optional_part_tested_for_none(idx, r), floor=2,
+                 necessary="assignments to grid pitch or bounds inside a retain-state scope are undone when the scope ends, also for a grid that has no locations built at scope entry")
